@@ -508,6 +508,9 @@ def gen (seed n : Nat) (tier : String) (emit : String → IO Unit) : IO Unit := 
       -- the decoder reads from the cursor: put junk before it
       let junk := bs "JUNK"
       emit s!"rt flate {maxd} {junk.length} {predefStr pre} {hexOfBytes dictF} {hexOfBytes (junk ++ z)} {hexOfBytes data} => {memberWant b ps pre junk.length}"
+      -- the filter announced, the data NOT encoded: a failing layer must fail the extraction (the undecoded data are a
+      -- well-formed plain object stream; a parser that carried on after a decoder error would accept them)
+      emit s!"rej filter {maxd} 0 {predefStr pre} {hexOfBytes dictF} {hexOfBytes data} ="
     -- the same stream through a filter chain of the C06 generator (+ predictor layers); the model runs the
     -- loader's decoders, the harness the real ones; then one layer corrupted, one encoded byte altered
     let (ck, r21) := r.nat 3
@@ -525,6 +528,12 @@ def gen (seed n : Nat) (tier : String) (emit : String → IO Unit) : IO Unit := 
       r := r26
       let viewC := junk ++ enc ++ C06.eolBytes eol
       emit s!"rt chain{ls.length} {maxd} {junk.length} {predefStr pre} {hexOfBytes dictC} {hexOfBytes viewC} {hexOfBytes data} => {memberWant b ps pre junk.length}"
+      -- one layer too many announced: the well-formed plain stream hex-encoded under [/ASCIIHexDecode /FlateDecode] - the
+      -- second layer fails on data that ARE a plain object stream (every eighth chain case)
+      if chainIdx % 8 == 0 then
+        let (dictX, r26x) := dictFor r nobj first " /Filter [/ASCIIHexDecode /FlateDecode]"
+        r := r26x
+        emit s!"rej filter {maxd} 0 {predefStr pre} {hexOfBytes dictX} {hexOfBytes (FiltersSpec.encodeHexDigits (fun _ => true) 0 data ++ [0x3E])} ="
       let (what, r27) := r.nat 4
       let (lay, r28) := r27.nat ls.length
       let (arg, r29) := r28.nat 100000
